@@ -223,7 +223,7 @@ func runC15(s *kernel.Sim) {
 	n := tp.Range(5, 120)
 	nIDs := threshold + tp.Range(0, 4)
 	methods := []string{"GET", "POST"}
-	statuses := []int{200, 200, 404, 500}
+	statuses := []int{200, 200, 404, 500, 200, 499, 520, 599} // among them codes that have no registered name
 	consumers := []string{"", "c1", "c2"}
 	interceptors := []string{"lunar-py-interceptor/1.0.0", "lunar-java-interceptor/2.1", "", "garbage"}
 	// two-level URLs (a second path parameter below the first): rare, or as
